@@ -852,6 +852,10 @@ func (b *BaseStore) LoadFromSnapshot(ctx context.Context) error {
 		return fmt.Errorf("unable to join log: %w", err)
 	}
 
+	// the entries of the snapshot are in the log now: the progress follows,
+	// as it does for entries that were loaded or replicated
+	b.recalculateReplicationStatus(maxClock)
+
 	if err := b.updateIndex(ctx); err != nil {
 		return fmt.Errorf("unable to update index: %w", err)
 	}
